@@ -47,3 +47,128 @@ func specCompareWithSlash(a, b []byte) int {
 //@ loop 0 invariant specCompareWithSlash(old(a), old(b)) == specCompareWithSlash(a, b)
 //@ loop 0 decreases len(a)
 //@ modifies nothing
+
+// ---------------------------------------------------------------------------
+// Order laws of the slash order, proved by induction over the ghost definition.
+// Lemma bodies are ghost code: a recursive call is the induction hypothesis
+// (checked against the lemma's own contract, with the measure decreasing).
+
+// Trusted facts about bytes.Compare (lexicographic order on byte strings).
+//
+//@ func axBytesCompareAntisym
+//@ lemma
+//@ trusted
+//@ ensures bytes.Compare(a, b) == -bytes.Compare(b, a)
+func axBytesCompareAntisym(a, b []byte) {}
+
+//@ func axBytesCompareTrans
+//@ lemma
+//@ trusted
+//@ ensures bytes.Compare(a, b) <= 0 && bytes.Compare(b, c) <= 0 ==> bytes.Compare(a, c) <= 0
+//@ ensures bytes.Compare(a, b) <= 0 && bytes.Compare(b, c) <= 0 && (bytes.Compare(a, b) < 0 || bytes.Compare(b, c) < 0) ==> bytes.Compare(a, c) < 0
+func axBytesCompareTrans(a, b, c []byte) {}
+
+//@ func lemmaSlashRefl
+//@ lemma
+//@ property C11
+//@ ensures specCompareWithSlash(a, a) == 0
+//@ decreases len(a)
+func lemmaSlashRefl(a []byte) {
+	if len(a) == 0 {
+		return
+	}
+	ia := bytes.IndexByte(a, '/')
+	if ia < 0 {
+		return
+	}
+	lemmaSlashRefl(a[ia+1:])
+}
+
+//@ func lemmaSlashAntisym
+//@ lemma
+//@ property C11
+//@ ensures specCompareWithSlash(a, b) == -specCompareWithSlash(b, a)
+//@ decreases len(a)
+func lemmaSlashAntisym(a, b []byte) {
+	if len(a) == 0 || len(b) == 0 {
+		return
+	}
+	ia, ib := bytes.IndexByte(a, '/'), bytes.IndexByte(b, '/')
+	if ia < 0 && ib < 0 {
+		axBytesCompareAntisym(a, b)
+		return
+	}
+	if ia < 0 || ib < 0 {
+		return
+	}
+	axBytesCompareAntisym(a[:ia], b[:ib])
+	lemmaSlashAntisym(a[ia+1:], b[ib+1:])
+}
+
+//@ func lemmaSlashRange
+//@ lemma
+//@ property C11
+//@ ensures -1 <= specCompareWithSlash(a, b) && specCompareWithSlash(a, b) <= 1
+//@ decreases len(a)
+func lemmaSlashRange(a, b []byte) {
+	if len(a) == 0 || len(b) == 0 {
+		return
+	}
+	ia, ib := bytes.IndexByte(a, '/'), bytes.IndexByte(b, '/')
+	if ia < 0 || ib < 0 {
+		return
+	}
+	lemmaSlashRange(a[ia+1:], b[ib+1:])
+}
+
+// Transitivity (with strictness): a <= b and b <= c imply a <= c, and a < c if
+// either premise is strict.
+//
+//@ func lemmaSlashTrans
+//@ lemma
+//@ property C11
+//@ requires specCompareWithSlash(a, b) <= 0 && specCompareWithSlash(b, c) <= 0
+//@ ensures specCompareWithSlash(a, c) <= 0
+//@ ensures (specCompareWithSlash(a, b) < 0 || specCompareWithSlash(b, c) < 0) ==> specCompareWithSlash(a, c) < 0
+//@ decreases len(a)
+func lemmaSlashTrans(a, b, c []byte) {
+	if len(a) == 0 || len(b) == 0 || len(c) == 0 {
+		return
+	}
+	ia, ib, ic := bytes.IndexByte(a, '/'), bytes.IndexByte(b, '/'), bytes.IndexByte(c, '/')
+	if ia < 0 && ib < 0 && ic < 0 {
+		axBytesCompareTrans(a, b, c)
+		return
+	}
+	if ia < 0 || ib < 0 || ic < 0 {
+		return
+	}
+	sa, sb, sc := a[:ia], b[:ib], c[:ic]
+	axBytesCompareTrans(sa, sb, sc)
+	if bytes.Compare(sa, sb) == 0 && bytes.Compare(sb, sc) == 0 {
+		axBytesCompareTrans(sc, sb, sa)
+		axBytesCompareAntisym(sa, sb)
+		axBytesCompareAntisym(sb, sc)
+		axBytesCompareAntisym(sa, sc)
+		lemmaSlashTrans(a[ia+1:], b[ib+1:], c[ic+1:])
+	}
+}
+
+// Consistency with key equality: two keys compare equal exactly when they are
+// the same byte string.
+//
+//@ func lemmaSlashEq
+//@ lemma
+//@ property C11
+//@ ensures specCompareWithSlash(a, b) == 0 <==> bytes.Equal(a, b)
+//@ decreases len(a)
+func lemmaSlashEq(a, b []byte) {
+	if len(a) == 0 || len(b) == 0 {
+		return
+	}
+	ia, ib := bytes.IndexByte(a, '/'), bytes.IndexByte(b, '/')
+	if ia < 0 || ib < 0 {
+		return
+	}
+	lemmaSlashEq(a[ia+1:], b[ib+1:])
+}
